@@ -209,6 +209,7 @@ func c21Infer(rng *rand.Rand, n int, args []string) {
 		tm := g.toTM(name)
 		var dump, out string
 		var bad bool
+		var typesCase []string
 		func() {
 			defer func() {
 				if r := recover(); r != nil {
@@ -226,6 +227,15 @@ func c21Infer(rng *rand.Rand, n int, args []string) {
 			types, terr := syntax.ExtractTypes(m, tokens, opts)
 			lastInferStats = c21InferStats(m, types)
 			out = c21DumpTypes(types, terr)
+			if terr == nil && !wild {
+				// ExtractTypes accepted the grammar: it claims the inferred fields fit every tree (validated by the
+				// proved-sound validator like the c21.types cases of c21.random; LALR conflicts do not matter here)
+				ones := make([]int, len(types.RangeTypes))
+				for j := range ones {
+					ones[j] = 1
+				}
+				typesCase = []string{sx.List(c21TypesStr(types, g.injName, g.cats), g.bodiesStr(types)), sx.Ints(ones)}
+			}
 			if terr != nil {
 				withErr++
 				for _, e := range status.FromError(terr) {
@@ -254,6 +264,9 @@ func c21Infer(rng *rand.Rand, n int, args []string) {
 			inferStats[k] += v
 		}
 		sx.Case("c21.infer", dump, out)
+		if typesCase != nil {
+			sx.Case("c21.types", typesCase[0], typesCase[1])
+		}
 	}
 	for k, v := range inferStats {
 		sx.Stat(k, v)
